@@ -7,6 +7,7 @@ import (
 	"fmt"
 	"sort"
 	"strings"
+	"sync/atomic"
 
 	"github.com/CrowdStrike/csproto"
 	"github.com/CrowdStrike/csproto/lazyproto"
@@ -25,8 +26,17 @@ var canonWT = map[int]int{1: wirex.Varint, 2: wirex.Bytes, 3: wirex.Bytes, 4: wi
 func GenMsg(t *rapid.T, depth int, maxRecs int, mark uint64, label string) []wirex.Rec {
 	n := rapid.IntRange(0, maxRecs).Draw(t, label+".nrec")
 	recs := make([]wirex.Rec, 0, n)
+	// shape: 0 = any tag; 1 = nest-heavy (most records are occurrences of the nested field 3);
+	// 2 = repeat-heavy (most records repeat one scalar tag) - so repeat counts cross buffer limits
+	shape := rapid.IntRange(0, 3).Draw(t, "shape")
+	hot := Tags[rapid.IntRange(0, len(Tags)-1).Draw(t, "hot")]
 	for i := 0; i < n; i++ {
 		tag := Tags[rapid.IntRange(0, len(Tags)-1).Draw(t, "tag")]
+		if shape == 1 && rapid.IntRange(0, 3).Draw(t, "nesthot") != 0 {
+			tag = 3
+		} else if shape == 2 && rapid.IntRange(0, 3).Draw(t, "rephot") != 0 {
+			tag = hot
+		}
 		wt := canonWT[tag]
 		if rapid.IntRange(0, 15).Draw(t, "wtdev") == 15 {
 			wt = []int{wirex.Varint, wirex.Fixed64, wirex.Bytes, wirex.Fixed32}[rapid.IntRange(0, 3).Draw(t, "wt")]
@@ -151,7 +161,7 @@ func (o Options) String() string {
 }
 
 // FilterCalls counts invocations of the buffer filter (probe).
-var FilterCalls int
+var FilterCalls atomic.Int64
 
 // Build turns Options into lazyproto options.
 func (o Options) Build() []lazyproto.Option {
@@ -164,13 +174,13 @@ func (o Options) Build() []lazyproto.Option {
 	}
 	switch o.Filter {
 	case 1:
-		opts = append(opts, lazyproto.WithBufferFilterFunc(func(c int) int { FilterCalls++; return c / 2 }))
+		opts = append(opts, lazyproto.WithBufferFilterFunc(func(c int) int { FilterCalls.Add(1); return c / 2 }))
 	case 2:
-		opts = append(opts, lazyproto.WithBufferFilterFunc(func(c int) int { FilterCalls++; return 0 }))
+		opts = append(opts, lazyproto.WithBufferFilterFunc(func(c int) int { FilterCalls.Add(1); return 0 }))
 	case 3:
-		opts = append(opts, lazyproto.WithBufferFilterFunc(func(c int) int { FilterCalls++; return -1 }))
+		opts = append(opts, lazyproto.WithBufferFilterFunc(func(c int) int { FilterCalls.Add(1); return -1 }))
 	case 4:
-		opts = append(opts, lazyproto.WithBufferFilterFunc(func(c int) int { FilterCalls++; return c }))
+		opts = append(opts, lazyproto.WithBufferFilterFunc(func(c int) int { FilterCalls.Add(1); return c }))
 	}
 	return opts
 }
